@@ -19,6 +19,7 @@ import (
 	"github.com/nspcc-dev/neo-go/pkg/core/state"
 	"github.com/nspcc-dev/neo-go/pkg/core/storage"
 	"github.com/nspcc-dev/neo-go/pkg/core/storage/dbconfig"
+	"github.com/nspcc-dev/neo-go/pkg/core/transaction"
 	"github.com/nspcc-dev/neo-go/pkg/crypto/hash"
 	"github.com/nspcc-dev/neo-go/pkg/io"
 	"github.com/nspcc-dev/neo-go/pkg/neotest"
@@ -172,6 +173,7 @@ func c20NewSource(r *rng, height int, perBlock int) *c20Source {
 	s.ctr = c20Contract(e.Validator.ScriptHash())
 	e.DeployContract(tb, s.ctr, nil)
 	var live []c20KV
+	fr := newRng(r.s ^ 0x5eed)
 	for int(bc.BlockHeight()) < height {
 		w := io.NewBufBinWriter()
 		n := 0
@@ -193,7 +195,13 @@ func c20NewSource(r *rng, height int, perBlock int) *c20Source {
 			continue
 		}
 		tx := e.PrepareInvocation(tb, w.Bytes(), []neotest.Signer{e.Validator})
-		e.AddNewBlock(tb, tx)
+		txs := []*transaction.Transaction{tx}
+		// further small transactions so that blocks of the window carry several (own PRNG: the storage history is
+		// the one the main stream produces)
+		for k := fr.intn(3); k > 0; k-- {
+			txs = append(txs, e.PrepareInvocation(tb, []byte{byte(opcode.PUSH1) + byte(fr.intn(8)), byte(opcode.RET)}, []neotest.Signer{e.Validator}))
+		}
+		e.AddNewBlock(tb, txs...)
 		e.CheckHalt(tb, tx.Hash())
 	}
 	s.height = bc.BlockHeight()
